@@ -288,6 +288,32 @@ pub fn run(ctx: &mut Ctx) {
             }
         }
     }
+    // many attributes: counts around the 8- and 16-bit boundaries (255 / 256 / 257 / 1000 / 4097 tiny raw
+    // attributes), every sealing set
+    {
+        let mut gi = 0u64;
+        for count in [255usize, 256, 257, 300, 1000, 4097] {
+            for seals in seal_sets.iter() {
+                gi += 1;
+                if !ctx.mine(gi) || (quick && count > 1000 && seals.len() != 3) {
+                    continue;
+                }
+                let mut r2 = ctx.rng("many-attrs", gi);
+                let p = Program {
+                    class: (gi % 4) as u8,
+                    method: (gi * 97 % 0x1000) as u16,
+                    tid: crate::gen::msg::gen_tid(&mut r2),
+                    attrs: (0..count).map(|i| AttrSpec::Raw(0x4000 + i as u16, vec![i as u8; i % 6])).collect(),
+                    seals: seals.to_vec(),
+                    creds: RefCreds::Short("many".into()),
+                };
+                check_program(ctx, &p);
+                super::c12::check_builder_paths(ctx, &p, false);
+                ctx.count("many-attribute-programs");
+            }
+        }
+    }
+    ctx.require("many-attribute-programs", 16);
     ctx.require("typed-readback-equal", 10_000);
     ctx.require("sealed-validates", 5_000);
     ctx.require("seals:sha1+sha256+fingerprint", 500);
